@@ -176,6 +176,21 @@ def _run_unit(prop, unit, texts, rng, fail, nvals, pymod):
                         reqs.append((t.name, code, 'rt', b))
     res = cxx.run_requests(unit, reqs)
     fail0 = fail
+    if prop == 'C18' and pymod is not None:
+        # a message nobody assigned to: str() of the freshly constructed object is the rendering of the default value
+        for t in unit.types:
+            if not isinstance(t, W.Struct) or known_shape(t):
+                continue
+            cases += 1
+            try:
+                fresh_text = str(getattr(pymod, t.name)())
+            except Exception as ex:
+                fail('python-str-default', texts[t.name], None, repr(ex))
+                continue
+            want = T.render(t, W.default_value(t))
+            if fresh_text != want:
+                fail('python-text-default', texts[t.name], W.default_value(t),
+                     'Python str() of a never-assigned message %r, expected %r' % (fresh_text, want))
     for m in meta:
         cases += 1
         kind, t, v, base = m[:4]
